@@ -35,6 +35,16 @@ struct C06 : RBase {
     k.max_depth = 3; k.top_statements = (int)r.range(2, 6); k.functions = (int)r.range(0, 1); k.objects = false; k.returns = r.chance(0.15); k.loop_max_iter = 4;
     return k;
   }
+  // 10 % of the groups end with a loop that cannot start (a type-protected name as forall iterator is refused at run time, outside the reference interpreter's subset):
+  // the iterated table must not stay locked, whatever the loop did before it failed (residue invariants only)
+  std::vector<std::vector<json>> extra_units(Rng& r, const json&, GenProgram&) const override {
+    std::vector<std::vector<json>> U; if (!r.chance(0.1)) return U;
+    auto raw = [](const std::string& t) { return json{{"k", "rawstmt"}, {"v", t}}; };
+    U.push_back({raw("lz = tab(2, 1);")});
+    U.push_back({raw(r.chance(0.5) ? "forall $pz in lz loop print $pz; end loop;" : "for lk in 1 to 2 loop forall $py in lz loop print $py; end loop; end loop;")});
+    U.push_back({raw("do lz.concat(3);"), raw("print lz.count();")});
+    return U;
+  }
   void extra_statements(Rng& r, json& ast, GenProgram&) const override {
     const long long MAX = 9223372036854775807LL, MIN = -MAX - 1;
     // the counting function: a bound expression with a visible side effect must be evaluated exactly once
